@@ -17,7 +17,13 @@ MODES = ["fn", "mod", "trait_self", "static_target"]
 def enumerate_states(tier):
     depths = range(1, 6) if tier == "thorough" else range(1, 4)
     states = []
-    for mode, asy, d, ar, lt in itertools.product(MODES, (False, True), depths, (0, 1, 2), (False, True, "ab", "gen", "prov", "val", "mki")):
+    for mode, asy, d, ar, lt in itertools.product(MODES, (False, True), depths, (0, 1, 2), (False, True, "ab", "gen", "prov", "val", "mki", "mut", "bys", "provrec")):
+        if lt == "mut" and (ar == 2 and tier != "thorough"):
+            continue    # a `&mut` parameter in every signature of the chain
+        if lt == "bys" and (d != 1 or mode != "trait_self" or (ar == 2 and tier != "thorough")):
+            continue    # `delegate_by = Self` written explicitly: still static dispatch
+        if lt == "provrec" and (d != 1 or mode != "trait_self" or not asy or ar != 0):
+            continue    # a provided async method whose body awaits another async method of the same trait
         if lt == "val" and (d != 1 or mode != "trait_self"):
             continue    # a method taking `self` by value, on an entraited trait
         if lt == "mki" and (d != 1 or mode not in ("fn", "mod") or asy):
@@ -30,7 +36,7 @@ def enumerate_states(tier):
             continue    # a provided (default-bodied) method of an entraited trait
         if lt in ("ab", "gen", "prov") and ar == 2 and tier != "thorough":
             continue
-        states.append(dict(key="z_%s_%s_d%d_a%d%s" % (mode, "a" if asy else "s", d, ar, {False: "", True: "_lt", "ab": "_ltab", "gen": "_gen", "prov": "_prov", "val": "_val", "mki": "_mki"}[lt]), mode=mode, asy=asy, depth=d, arity=ar, lt=lt))
+        states.append(dict(key="z_%s_%s_d%d_a%d%s" % (mode, "a" if asy else "s", d, ar, {False: "", True: "_lt", "ab": "_ltab", "gen": "_gen", "prov": "_prov", "val": "_val", "mki": "_mki", "mut": "_mut", "bys": "_bys", "provrec": "_provrec"}[lt]), mode=mode, asy=asy, depth=d, arity=ar, lt=lt))
     return states, len(states), dict(depths=list(depths), arities=[0, 1, 2], modes=MODES)
 
 
@@ -49,6 +55,8 @@ def render(s):
         # two named lifetimes related by an outlives bound
         params, args, fwdl, asum, G = params + ", s: &'a str, t: &'b str", args + ', "xy", ""', fwdl + ["s", "t"], \
             asum + " + s.len() as u64 + t.len() as u64", "<'a, 'b: 'a>"
+    elif lt == "mut":
+        params, args, fwdl, asum, G = params + ", m: &mut u64", args + ", &mut 2u64", fwdl + ["m"], asum + " + *m", ""
     elif lt == "gen":
         params, args, fwdl, asum, G = params + ", v: V", args + ", 2u64", fwdl + ["v"], asum + " + v.into()", "<V: ::core::marker::Send + ::core::convert::Into<u64>>"
     fwd = ", ".join(fwdl)
@@ -78,6 +86,13 @@ def render(s):
         L.append("    pub mod bottom { pub %sfn l%d%s(deps: %s%s) -> %s { %s own%s } pub fn unrelated(deps: %s) {} }" % (A, i, G, any_, params, RT, boxes(i), asum, any_))
         app = "::entrait::Impl::new(())"
         direct = ("l1(&app%s)" % args) if d > 1 else ("bottom::l1(&app%s)" % args)
+    elif mode == "trait_self" and lt == "provrec":
+        L.append("    #[::entrait::entrait]")
+        L.append("    pub trait L1: ::core::marker::Sync { async fn helper(&self) -> u64; async fn l1(&self) -> u64 { %s own + self.helper().await } }" % boxes(1))
+        L.append("    pub struct App;")
+        L.append("    impl L1 for App { async fn helper(&self) -> u64 { 0 } }")
+        app = "::entrait::Impl::new(App)"
+        direct = "<App as L1>::l1(&*app)"
     elif mode == "trait_self" and lt == "val":
         L.append("    #[::entrait::entrait]")
         L.append("    pub trait L%d { %sfn l%d(self%s) -> u64; }" % (i, A, i, params))
@@ -96,7 +111,7 @@ def render(s):
         app = "::entrait::Impl::new(App)"
         direct = "<App as L1>::l1(&*app%s)" % args
     elif mode == "trait_self":
-        L.append("    #[::entrait::entrait]")
+        L.append("    #[::entrait::entrait%s]" % ("(delegate_by = Self)" if lt == "bys" else ""))
         L.append("    pub trait L%d { %sfn l%d%s(&self%s) -> u64; }" % (i, A, i, G, params))
         L.append("    pub struct App;")
         L.append("    impl L%d for App { %sfn l%d%s(&self%s) -> u64 { %s own%s } }" % (i, A, i, G, params, boxes(i), asum))
@@ -131,7 +146,7 @@ def render(s):
 def model(s):
     d, ar = s["depth"], s["arity"]
     total = d * (d + 1) // 2
-    extra = {False: 0, None: 0, True: 2, "ab": 2, "gen": 2, "prov": 0, "val": 0, "mki": 0}[s.get("lt")]
+    extra = {False: 0, None: 0, True: 2, "ab": 2, "gen": 2, "prov": 0, "val": 0, "mki": 0, "mut": 2, "bys": 0, "provrec": 0}[s.get("lt")]
     res = sum(i * i for i in range(1, d + 1)) + d * (sum(3 + i for i in range(ar)) + extra)
     return dict(allocs="%d|%d" % (total, total), res="%d|%d" % (res, res))
 
@@ -178,7 +193,7 @@ def evaluate(states, report, tier):
             if sig in done:
                 continue
             done.add(sig)
-            tags = {"mode:" + s["mode"], "async" if s["asy"] else "sync", "depth:%d" % s["depth"], "arity:%d" % s["arity"], {False: "elided", None: "elided", True: "named-lifetime", "ab": "outlives-bound", "gen": "generic-method", "prov": "provided-method", "val": "by-value-self", "mki": "mockall-impl-trait-return"}[s.get("lt")]}
+            tags = {"mode:" + s["mode"], "async" if s["asy"] else "sync", "depth:%d" % s["depth"], "arity:%d" % s["arity"], {False: "elided", None: "elided", True: "named-lifetime", "ab": "outlives-bound", "gen": "generic-method", "prov": "provided-method", "val": "by-value-self", "mki": "mockall-impl-trait-return", "mut": "mut-ref-parameter", "bys": "delegate-by-self", "provrec": "provided-awaits-sibling"}[s.get("lt")]}
             report.violation(s["key"], tags, sig, detail, state=s, source=engine.standalone_source(u), meta=dict(mode="run"))
 
 
